@@ -4,6 +4,6 @@ P=$(readlink -f "$1"); shift
 cd /verif
 [ -z "$(git -C /repo status --porcelain)" ] || { echo "/repo not clean"; exit 2; }
 git -C /repo apply "$P" || exit 2
-for c in "$@"; do ./check $c 2>&1 | grep -E "^VIOLATION|^TOOL|^SPEC-DRIFT|^KNOWN|check\] C" | cut -c1-220; done
+for c in "$@"; do VERIF_NO_EVIDENCE=1 ./check $c 2>&1 | grep -E "^VIOLATION|^TOOL|^SPEC-DRIFT|^KNOWN|check\] C" | cut -c1-220; done
 git -C /repo checkout -- .
 git -C /repo status --short
